@@ -2,6 +2,7 @@ CONSTANTS
   SeedLo = 1
   SeedHi = 100
   WithProps = FALSE
+  WithComments = FALSE
 INIT FInit
 NEXT FNext
 INVARIANT Ruled
